@@ -1,1 +1,3 @@
 import Martian.Props.C14
+open Martian.Props.C14
+#print axioms rfc_hop_by_hop_listed
